@@ -16,7 +16,7 @@ def dmax(dt):
 
 def call_record(a_vals, b_vals, dta, dtb):
     ra, rb = ranks(a_vals, b_vals)
-    r = dict(a=ra, b=rb, dta=dta, dtb=dtb, ok=False, err='')
+    r = dict(op='set', a=ra, b=rb, dta=dta, dtb=dtb, ok=False, err='')
     z = f32_fields(0.0)
     r.update(dab=z, dba=z, jab=fix47(0.0), jba=fix47(0.0))
     try:
@@ -121,7 +121,7 @@ class ByteOrder(Fam):
 
     def execute(self, inp):
         ra, rb = ranks(inp['a'], inp['b'])
-        r = dict(a=ra, b=rb, dta=inp['dta'], dtb=inp['dtb'], ok=True, err='')
+        r = dict(op='set', a=ra, b=rb, dta=inp['dta'], dtb=inp['dtb'], ok=True, err='')
         D = None
         a = np.array(inp['a'], dtype=('>' if 'a' in inp['swap'] else '<') + inp['dta'])
         b = np.array(inp['b'], dtype=('>' if 'b' in inp['swap'] else '<') + inp['dtb'])
@@ -189,7 +189,54 @@ class RandomSets(Fam):
             yield dict(a=sorted(A), b=sorted(B), dta=dta, dtb=dtb)
 
 
-FAMILIES = [ExhaustiveSubsets, ByteOrder, RandomSets]
+class LongIntervals(Fam):
+    """signatures of 2^12 .. 2^20 (thorough 2^23) k-mers, lengths at and next to powers of two: the sets are unions of intervals, shipped to
+    TLC as interval lists (cardinalities by arithmetic)"""
+    name = 'long-interval-sets'
+    exhaustive = False
+    procs = 8
+
+    def inputs(self, ctx):
+        exps = [12, 14, 16, 20] if ctx.tier == 'quick' else [12, 13, 14, 15, 16, 17, 18, 20, 22, 23]
+        self.rule = (f'sets that are unions of 1-3 intervals with lengths 2^e-1, 2^e, 2^e+1 for e in {exps}: equal, shifted by half, nested, '
+                     f'adjacent-disjoint, comb, one tiny vs one long; dtype pairs u8/u8, u4/u8, i8/u4, u4/i4; base at 0 and at the top of the range')
+        for e in exps:
+            for L in ((1 << e) - 1, 1 << e, (1 << e) + 1):
+                if L >= (1 << 23):
+                    L = (1 << 23) - 3 + (L - (1 << 23))           # union stays below 2^24
+                shapes = dict(equal=([(0, L)], [(0, L)]), half=([(0, L)], [(L // 2, L // 2 + L)]), nested=([(0, L)], [(L // 4, L // 2)]),
+                              adjacent=([(0, L // 2)], [(L // 2, L)]), comb=([(0, L // 3), (L // 2, L)], [(L // 4, L // 2 + 5), (L - 7, L + 9)]),
+                              tiny=([(5, 6), (L - 1, L)], [(0, L)]))
+                for sname, (A, B) in shapes.items():
+                    for di, (dta, dtb) in enumerate((('u8', 'u8'), ('u4', 'u8'), ('i8', 'u4'), ('u4', 'i4'))):
+                        if (e + di + len(sname)) % (1 if ctx.tier == 'thorough' else 2):
+                            continue
+                        yield dict(a=[list(x) for x in A], b=[list(x) for x in B], dta=dta, dtb=dtb, top=bool((e + di) % 2), shape=sname)
+
+    def execute(self, inp):
+        r = dict(op='iv', a=inp['a'], b=inp['b'], dta=inp['dta'], dtb=inp['dtb'], ok=False, err='')
+        z = f32_fields(0.0)
+        r.update(dab=z, dba=z, jab=fix47(0.0), jba=fix47(0.0))
+        try:
+            hi = max([x[1] for x in inp['a'] + inp['b']])
+            base = (min(dmax(inp['dta']), dmax(inp['dtb'])) - hi) if inp['top'] else 0
+            mk = lambda ivs, dt: np.concatenate([np.arange(base + lo, base + h, dtype=np.dtype(dt)) for lo, h in ivs])
+            a, b = mk(inp['a'], inp['dta']), mk(inp['b'], inp['dtb'])
+            r['dab'] = f32_fields(jaccarddist(a, b)); r['dba'] = f32_fields(jaccarddist(b, a))
+            r['jab'] = fix47(jaccard(a, b)); r['jba'] = fix47(jaccard(b, a))
+            r['ok'] = True
+        except Exception as e:
+            r['err'] = type(e).__name__
+        return r
+
+    def nontrivial(self, inp, rec):
+        return core.short_hash(inp) if inp['shape'] not in ('equal', 'adjacent') else None
+
+    def describe(self, inp, rec):
+        return f"{inp['shape']} a={inp['a']} b={inp['b']} dtypes={inp['dta']},{inp['dtb']} top={inp['top']}"
+
+
+FAMILIES = [ExhaustiveSubsets, ByteOrder, RandomSets, LongIntervals]
 
 
 def run(ctx):
